@@ -125,6 +125,7 @@ username $NAME nopassword
 username $NAME attributes
  vpn-filter value $access-list
  vpn-group-policy $group-policy
+ !webvpn
  *
 [ANCHOR]
 # Other anchors, not referencing any command
